@@ -33,3 +33,5 @@ def run(prog, rep):
     from ..rules import r_io as _rio4
     _rio4.run_reclaim(prog, rep)
     r_frame.run_overload_defaults(prog, rep)
+    from ..rules import r_order as _roe
+    _roe.run_exact_compare(prog, rep)
